@@ -1,9 +1,21 @@
 import RlibModel.Lemmas.IterMasks
+import RlibModel.Lemmas.IterPermSpec
+import RlibModel.Lemmas.IterNeigh
 /-!
 # C15 — combinatorial iterators enumerate exactly the specified set, once each, in order
+
+Property theorems only; the models are in `Model/Iter.lean`, helper lemmas in
+`Lemmas/IterMasks.lean`, `Lemmas/IterPerm.lean`, `Lemmas/IterPermAll.lean`, `Lemmas/IterPermSpec.lean`,
+`Lemmas/IterNeigh.lean`.
+
+Masks are bit patterns `x < 2^w` for an arbitrary width `w` (signed and unsigned types of one width share
+them).  Sequences are lists of integers, `<` on them is the lexicographic order, `Perm` = "is an
+arrangement of".
 -/
 namespace Rlib.C15
 open Rlib.Iter
+
+/-! ## `iter_submasks` -/
 
 /-- The step of `next_submask`: for a non-zero submask `s` of `x`, `(s − 1) & x` is a submask of `x`
     below `s`, and it is the **largest** one (no submask is skipped). -/
@@ -14,6 +26,312 @@ theorem submask_step (s x : Nat) (hs : s ≠ 0) (hsx : s &&& x = s) :
   have : (s - 1) &&& x ≤ s - 1 := Nat.and_le_left
   omega
 
-example : (12 - 1) &&& 13 = 9 := by decide
+example : (12 - 1) &&& 13 = 9 ∧ 12 &&& 13 = 12 := by decide
+
+/-- `iter_submasks(x)` yields exactly the list "all numbers from `x` down to 0 that are submasks of `x`",
+    for every width `w` and every `w`-bit mask (the wrapping subtraction never wraps, the iterator
+    terminates — it is defined by well-founded recursion). -/
+theorem submasks_spec (w x : Nat) (hx : x < 2 ^ w) : iterSubmasks w x = specSubmasks x := by
+  unfold iterSubmasks specSubmasks
+  exact submasksFrom_spec w x x hx (Nat.and_self x)
+
+example : iterSubmasks 8 13 = [13, 12, 9, 8, 5, 4, 1, 0] := by
+  rw [submasks_spec 8 13 (by decide)]; decide
+
+/-- Spelled out: every submask of `x` exactly once (the list is strictly decreasing, so it has no
+    repetitions), nothing else, ending with 0. -/
+theorem submasks_enumeration (w x : Nat) (hx : x < 2 ^ w) :
+    (iterSubmasks w x).Pairwise (· > ·) ∧ (∀ s, s ∈ iterSubmasks w x ↔ s &&& x = s) ∧
+    (iterSubmasks w x).getLast? = some 0 := by
+  refine ⟨?_, ?_, by unfold iterSubmasks; exact List.getLast?_concat⟩
+  · rw [submasks_spec w x hx]
+    unfold specSubmasks
+    exact (List.pairwise_reverse.mpr List.pairwise_lt_range).filter _
+  · intro s
+    rw [submasks_spec w x hx]
+    unfold specSubmasks
+    rw [List.mem_filter, List.mem_reverse, List.mem_range, isSubmask_iff]
+    constructor
+    · exact fun h => h.2
+    · intro h
+      have : s &&& x ≤ x := Nat.and_le_right
+      exact ⟨by omega, h⟩
+
+example : 9 ∈ iterSubmasks 16 13 := ((submasks_enumeration 16 13 (by decide)).2.1 9).mpr (by decide)
+
+/-- The fast bit-by-bit enumeration the driver uses as specification for large masks is the
+    by-definition one. -/
+theorem subsAsc_reverse_spec (x : Nat) : (subsAsc x).reverse = specSubmasks x := by
+  unfold specSubmasks
+  rw [subsAsc_spec, List.filter_reverse]
+
+example : (subsAsc 5).reverse = [5, 4, 1, 0] := by rw [subsAsc_reverse_spec]; decide
+
+/-! ## `iter_supermasks` -/
+
+/-- The step of `next_supermask`: for a supermask `s` of `x`, `(s + 1) | x` is a supermask of `x`
+    above `s`, and the **least** one. -/
+theorem supermask_step (s x : Nat) (hxs : x &&& s = x) :
+    x &&& ((s + 1) ||| x) = x ∧ s < (s + 1) ||| x ∧
+    ∀ u, x &&& u = x → s < u → (s + 1) ||| x ≤ u := by
+  refine ⟨and_or_self_right x (s + 1), ?_, supermask_step_aux s x hxs⟩
+  have : s + 1 ≤ (s + 1) ||| x := Nat.left_le_or
+  omega
+
+example : (11 + 1) ||| 3 = 15 ∧ 3 &&& 11 = 3 := by decide
+
+/-- `iter_supermasks(x)` yields exactly the list "all `w`-bit numbers in increasing order that are
+    supermasks of `x`", for every width `w` and every `w`-bit mask — including the all-ones mask
+    (`-1` of a signed type), where the answer is `[ones]`. -/
+theorem supermasks_spec (w x : Nat) (hx : x < 2 ^ w) : iterSupermasks w x = specSupermasks w x := by
+  unfold iterSupermasks specSupermasks
+  rw [supermasksFrom_spec w x hx (ones w - x) x rfl hx (Nat.and_self x)]
+  rw [List.range_eq_range']
+  have := filter_range'_skip (fun u => isSubmask x u) (2 ^ w) 0 x (Nat.zero_le _) (by omega) (by
+    intro u _ hu
+    cases h : isSubmask x u with
+    | false => rfl
+    | true =>
+      have h' := (isSubmask_iff x u).mp h
+      have : x &&& u ≤ u := Nat.and_le_right
+      omega)
+  rw [Nat.sub_zero] at this
+  exact this.symm
+
+example : iterSupermasks 4 5 = [5, 7, 13, 15] := by
+  rw [supermasks_spec 4 5 (by decide)]; decide
+example : iterSupermasks 8 255 = [255] := by
+  rw [supermasks_spec 8 255 (by decide)]; decide
+
+/-- Spelled out: every `w`-bit supermask of `x` exactly once (strictly increasing), nothing else,
+    ending with all-ones. -/
+theorem supermasks_enumeration (w x : Nat) (hx : x < 2 ^ w) :
+    (iterSupermasks w x).Pairwise (· < ·) ∧
+    (∀ s, s ∈ iterSupermasks w x ↔ s < 2 ^ w ∧ x &&& s = x) ∧
+    (iterSupermasks w x).getLast? = some (ones w) := by
+  refine ⟨?_, ?_, by unfold iterSupermasks; exact List.getLast?_concat⟩
+  · rw [supermasks_spec w x hx]
+    exact List.pairwise_lt_range.filter _
+  · intro s
+    rw [supermasks_spec w x hx]
+    unfold specSupermasks
+    rw [List.mem_filter, List.mem_range, isSubmask_iff]
+
+example : 13 ∈ iterSupermasks 4 5 := ((supermasks_enumeration 4 5 (by decide)).2.1 13).mpr (by decide)
+
+/-- The fast bit-by-bit enumeration the driver uses as specification for wide types is the
+    by-definition one. -/
+theorem supsAsc_eq_spec (w x : Nat) (hx : x < 2 ^ w) : supsAsc w x = specSupermasks w x :=
+  supsAsc_spec w x hx
+
+example : supsAsc 4 5 = [5, 7, 13, 15] := by rw [supsAsc_eq_spec 4 5 (by decide)]; decide
+
+/-! ## `next_permutation` -/
+
+/-- The Rust loop, modelled index by index (`findAscent`, `findJ`, `swapAt`, `reverseFrom`), never
+    goes out of bounds and computes exactly the structural formulation the proofs below work on. -/
+theorem nextPermIdx_structural (d : List Int) : nextPermutationIdx d = .ok (nextPermutation d) :=
+  nextPermutationIdx_eq d
+
+example : nextPermutationIdx [1, 3, 2, 2] = .ok ([2, 1, 2, 3], true) := by
+  rw [nextPermIdx_structural, show nextPermutation [1, 3, 2, 2] = ([2, 1, 2, 3], true) by decide]
+
+/-- `true` case: the new content is the lexicographic successor of the old one among **all**
+    arrangements of the same elements (repeated elements allowed): an arrangement, greater, and not
+    greater than any other greater arrangement. -/
+theorem nextPerm_spec (xs ys : List Int) (h : nextPermutationIdx xs = .ok (ys, true)) :
+    ys.Perm xs ∧ xs < ys ∧ ∀ zs, zs.Perm xs → xs < zs → ys ≤ zs := by
+  rw [nextPermutationIdx_eq] at h
+  unfold nextPermutation at h
+  cases hnp : np xs with
+  | none => rw [hnp] at h; simp at h
+  | some v =>
+    rw [hnp] at h
+    simp only [Except.ok.injEq, Prod.mk.injEq, and_true] at h
+    subst h
+    obtain ⟨h1, h2, h3⟩ := np_spec xs v hnp
+    exact ⟨h1, h2, fun zs hz hlt => List.not_lt.mp (h3 zs hz hlt)⟩
+
+example : nextPermutationIdx [2, 0, 2, 1, 1] = .ok ([2, 1, 0, 1, 2], true) := by
+  rw [nextPermIdx_structural, show nextPermutation [2, 0, 2, 1, 1] = ([2, 1, 0, 1, 2], true) by decide]
+
+/-- `false` is returned exactly on non-increasing input (the last arrangement) … -/
+theorem nextPerm_false_iff (xs : List Int) :
+    (∃ ys, nextPermutationIdx xs = .ok (ys, false)) ↔ xs.Pairwise (· ≥ ·) := by
+  rw [nextPermutationIdx_eq]
+  constructor
+  · rintro ⟨ys, h⟩
+    simp only [Except.ok.injEq] at h
+    exact (nextPermutation_false xs).mp (by rw [h])
+  · intro h
+    refine ⟨(nextPermutation xs).1, ?_⟩
+    have := (nextPermutation_false xs).mpr h
+    rw [← this]
+
+/-- … and then the content is left reversed, which is the sorted (first) arrangement. -/
+theorem nextPerm_wrap (xs : List Int) (h : xs.Pairwise (· ≥ ·)) :
+    nextPermutationIdx xs = .ok (xs.reverse, false) ∧ xs.reverse.Pairwise (· ≤ ·) := by
+  rw [nextPermutationIdx_eq]
+  have h1 := (nextPermutation_false xs).mpr h
+  obtain ⟨h2, h3⟩ := nextPermutation_wrap xs h
+  refine ⟨?_, h3⟩
+  rw [← h1, ← h2]
+
+example : nextPermutationIdx [3, 2, 2, 1] = .ok ([1, 2, 2, 3], false) :=
+  (nextPerm_wrap [3, 2, 2, 1] (by decide)).1
+
+/-- In executable form: `next_permutation` returns what the by-definition specification returns — the
+    first arrangement above the input in the sorted duplicate-free list of all arrangements, or, when
+    there is none, the sorted arrangement and `false`. -/
+theorem nextPerm_eq_spec (xs : List Int) : nextPermutationIdx xs = .ok (specNextPermutation xs) := by
+  rw [nextPermutationIdx_eq, specNextPermutation_eq]
+
+example : nextPermutationIdx [0, 2, 2, 1] = .ok ([1, 0, 2, 2], true) := by
+  rw [nextPerm_eq_spec, show specNextPermutation [0, 2, 2, 1] = ([1, 0, 2, 2], true) by rw [specNextPermutation_eq]; decide]
+
+/-! ## `iter_permutations` -/
+
+/-- `iter_permutations(d).collect()`: the fuel of the model always suffices (the iterator terminates
+    within `len! + 1` steps) and no step panics; the output starts with the sorted content; every
+    element is produced from the previous one by a `true` step of `next_permutation` and the last one
+    is non-increasing (the next step returns `false`); the output is strictly increasing in the
+    lexicographic order — so no arrangement is listed twice — and its members are exactly the
+    arrangements of `d`. -/
+theorem iterPermutations_spec (d : List Int) :
+    ∃ r, iterPermutations d = .ok (sortInts d :: r) ∧
+      (sortInts d).Pairwise (· ≤ ·) ∧
+      StepChain (sortInts d) r ∧
+      (sortInts d :: r).Pairwise (· < ·) ∧
+      (∀ zs, zs ∈ sortInts d :: r ↔ zs.Perm d) ∧
+      ((sortInts d :: r).getLast (by simp)).Pairwise (· ≥ ·) := by
+  have hs := sortInts_perm d
+  have hfuel : (allPerms (sortInts d)).countP (fun z => decide (sortInts d < z)) < factorial d.length + 1 := by
+    have h1 : (allPerms (sortInts d)).countP (fun z => decide (sortInts d < z)) ≤ (allPerms (sortInts d)).length :=
+      List.countP_le_length
+    rw [length_allPerms, hs.length_eq] at h1
+    omega
+  obtain ⟨r, hr⟩ := permIterRest_fuel (sortInts d) _ (sortInts d) (List.Perm.refl _) hfuel
+  have hchain := permIterRest_chain _ _ _ hr
+  refine ⟨r, ?_, sortInts_nonDec d, hchain, chain_sorted r _ hchain, ?_, chain_last_nonInc r _ hchain⟩
+  · unfold iterPermutations
+    simp only [hr]
+  · intro zs
+    constructor
+    · intro h
+      rcases List.mem_cons.mp h with rfl | h
+      · exact hs
+      · exact (chain_perm r _ hchain zs h).trans hs
+    · intro h
+      exact chain_cover r _ hchain zs (h.trans hs.symm)
+        (nonDec_min _ zs (sortInts_nonDec d) (h.trans hs.symm))
+
+/-- The by-definition specification (all arrangements, sorted, duplicates dropped) is strictly increasing
+    and contains exactly the arrangements of `d` … -/
+theorem specPermutations_enumeration (d : List Int) :
+    (specPermutations d).Pairwise (· < ·) ∧ ∀ z, z ∈ specPermutations d ↔ z.Perm d :=
+  specPermutations_char d
+
+/-- … and it is, as a list, what `iter_permutations(d).collect()` returns. -/
+theorem iterPermutations_eq_spec (d : List Int) : iterPermutations d = .ok (specPermutations d) := by
+  obtain ⟨r, h1, _, _, h4, h5, _⟩ := iterPermutations_spec d
+  obtain ⟨s1, s2⟩ := specPermutations_char d
+  rw [h1]
+  congr 1
+  exact sorted_ext_lex _ _ h4 s1 (fun a => by rw [h5 a, s2 a])
+
+example : ∃ out, iterPermutations [2, 1, 2] = .ok out ∧ out.Pairwise (· < ·) ∧ [2, 2, 1] ∈ out :=
+  ⟨_, iterPermutations_eq_spec _, (specPermutations_enumeration _).1,
+    ((specPermutations_enumeration _).2 _).mpr (by decide)⟩
+
+/-- The link between the chain and the Rust function: a chain step is a `true` step. -/
+theorem stepChain_step (u v : List Int) : np u = some v ↔ nextPermutationIdx u = .ok (v, true) := by
+  rw [nextPermutationIdx_eq]
+  unfold nextPermutation
+  cases np u <;> simp
+
+example : ∃ r, iterPermutations [2, 1, 2] = .ok (sortInts [2, 1, 2] :: r) ∧
+    [2, 2, 1] ∈ sortInts [2, 1, 2] :: r ∧ [1, 2, 2] ∈ sortInts [2, 1, 2] :: r := by
+  obtain ⟨r, h1, _, _, _, h5, _⟩ := iterPermutations_spec [2, 1, 2]
+  exact ⟨r, h1, (h5 _).mpr (by decide), (h5 _).mpr (by decide)⟩
+
+/-! ## grid neighbours -/
+
+/-- The three iterators equal "the fixed offset list, each offset kept iff the target cell lies in the
+    `n × m` grid" over the mathematical integers (the `isize`/`usize` casts are the identity for
+    arguments below `isize::MAX`).  Holds for any offset list with components in `{-1, 0, 1}`. -/
+theorem neighbours_spec (offs : List (Int × Int)) (hoffs : SmallOffsets offs) (n m i j : Nat)
+    (hn : n < 2 ^ 63 - 1) (hm : m < 2 ^ 63 - 1) (hi : i < 2 ^ 63 - 1) (hj : j < 2 ^ 63 - 1) :
+    neighbours offs n m i j = specNeighbours offs n m i j :=
+  neighbours_eq_spec offs hoffs n m i j hn hm hi hj
+
+example : neighbours4 3 3 1 1 = [(1, 2), (0, 1), (1, 0), (2, 1)] := by
+  unfold neighbours4
+  rw [neighbours_spec _ smallOffsets4 3 3 1 1 (by decide) (by decide) (by decide) (by decide)]; decide
+example : neighbours8 2 2 0 0 = [(0, 1), (1, 0), (1, 1)] := by
+  unfold neighbours8
+  rw [neighbours_spec _ smallOffsets8 2 2 0 0 (by decide) (by decide) (by decide) (by decide)]; decide
+
+/-- `iter_neighbours_4`: exactly the in-grid cells at Manhattan distance 1, each once. -/
+theorem neighbours4_mem (n m i j a b : Nat)
+    (hn : n < 2 ^ 63 - 1) (hm : m < 2 ^ 63 - 1) (hi : i < 2 ^ 63 - 1) (hj : j < 2 ^ 63 - 1) :
+    ((a, b) ∈ neighbours4 n m i j ↔
+      a < n ∧ b < m ∧ ((a : Int) - i).natAbs + ((b : Int) - j).natAbs = 1) := by
+  unfold neighbours4
+  rw [neighbours_spec _ smallOffsets4 n m i j hn hm hi hj, specNeighbours_mem]
+  have : (((a : Int) - i, (b : Int) - j) ∈ offsets4) ↔ ((a : Int) - i).natAbs + ((b : Int) - j).natAbs = 1 := by
+    simp [offsets4]; omega
+  rw [this]
+
+/-- `iter_neighbours_4d`: exactly the in-grid diagonal cells. -/
+theorem neighbours4d_mem (n m i j a b : Nat)
+    (hn : n < 2 ^ 63 - 1) (hm : m < 2 ^ 63 - 1) (hi : i < 2 ^ 63 - 1) (hj : j < 2 ^ 63 - 1) :
+    ((a, b) ∈ neighbours4d n m i j ↔
+      a < n ∧ b < m ∧ ((a : Int) - i).natAbs = 1 ∧ ((b : Int) - j).natAbs = 1) := by
+  unfold neighbours4d
+  rw [neighbours_spec _ smallOffsets4d n m i j hn hm hi hj, specNeighbours_mem]
+  have : (((a : Int) - i, (b : Int) - j) ∈ offsets4d) ↔ (((a : Int) - i).natAbs = 1 ∧ ((b : Int) - j).natAbs = 1) := by
+    simp [offsets4d]; omega
+  rw [this]
+
+/-- `iter_neighbours_8`: exactly the in-grid cells at Chebyshev distance 1. -/
+theorem neighbours8_mem (n m i j a b : Nat)
+    (hn : n < 2 ^ 63 - 1) (hm : m < 2 ^ 63 - 1) (hi : i < 2 ^ 63 - 1) (hj : j < 2 ^ 63 - 1) :
+    ((a, b) ∈ neighbours8 n m i j ↔
+      a < n ∧ b < m ∧ max ((a : Int) - i).natAbs ((b : Int) - j).natAbs = 1) := by
+  unfold neighbours8
+  rw [neighbours_spec _ smallOffsets8 n m i j hn hm hi hj, specNeighbours_mem]
+  have : (((a : Int) - i, (b : Int) - j) ∈ offsets8) ↔ max ((a : Int) - i).natAbs ((b : Int) - j).natAbs = 1 := by
+    simp [offsets8]; omega
+  rw [this]
+
+example : (0, 1) ∈ neighbours4 3 3 1 1 :=
+  (neighbours4_mem 3 3 1 1 0 1 (by decide) (by decide) (by decide) (by decide)).mpr (by decide)
+example : (5, 5) ∈ neighbours4d 6 6 4 4 :=
+  (neighbours4d_mem 6 6 4 4 5 5 (by decide) (by decide) (by decide) (by decide)).mpr (by decide)
+example : (0, 0) ∈ neighbours8 1 5 0 1 :=
+  (neighbours8_mem 1 5 0 1 0 0 (by decide) (by decide) (by decide) (by decide)).mpr (by decide)
+
+/-- No cell is yielded twice (for any duplicate-free offset list, in particular the three of rlib). -/
+theorem neighbours_nodup (offs : List (Int × Int)) (hoffs : SmallOffsets offs) (hnd : offs.Nodup)
+    (n m i j : Nat)
+    (hn : n < 2 ^ 63 - 1) (hm : m < 2 ^ 63 - 1) (hi : i < 2 ^ 63 - 1) (hj : j < 2 ^ 63 - 1) :
+    (neighbours offs n m i j).Nodup := by
+  rw [neighbours_spec offs hoffs n m i j hn hm hi hj]
+  unfold specNeighbours
+  refine List.Pairwise.filterMap _ ?_ hnd
+  intro p q hpq c hc c' hc' hcc
+  apply hpq
+  simp only at hc hc'
+  split at hc
+  · split at hc'
+    · simp only [Option.some.injEq] at hc hc'
+      subst hcc
+      rw [← hc'] at hc
+      simp only [Prod.mk.injEq] at hc
+      apply Prod.ext <;> omega
+    · cases hc'
+  · cases hc
+
+example : offsets4.Nodup ∧ offsets4d.Nodup ∧ offsets8.Nodup := by decide
 
 end Rlib.C15
